@@ -176,4 +176,167 @@ theorem before_sim (M : Nat) (mp : Printer) (cs : List Modfile.Comment) (fuel : 
       rw [hr]
       rfl
 
+/-! ### expr on the leaf node types -/
+
+theorem exprLParen_sim (M : Nat) (mp : Printer) (x : Modfile.LParen) (fuel : Nat)
+    (hm : mp.margin ≤ M) (hf : pot M mp + cParen M x.comments ≤ fuel) :
+    printer_expr fuel (emb mp) (Expr.LParen (G.lparen x)) = .ok ((), emb (mp.exprLParen x)) := by
+  simp only [cParen] at hf
+  obtain ⟨f, rfl⟩ : ∃ f, fuel = f + 1 := ⟨fuel - 1, by omega⟩
+  rw [expr_unfold]
+  have hb : (Expr_Comments (Expr.LParen (G.lparen x))).Before = x.comments.before.map G.com := rfl
+  rw [hb, before_sim M mp x.comments.before f hm (by omega)]
+  simp only [bind_ok, gBody, pure_eq_ok]
+  simp [emb, Printer.exprLParen, Printer.writeByte, Printer.queueSuffix, Expr_Comments, G.lparen, G.coms]
+
+theorem exprRParen_sim (M : Nat) (mp : Printer) (x : Modfile.RParen) (fuel : Nat)
+    (hm : mp.margin ≤ M) (hf : pot M mp + cParen M x.comments ≤ fuel) :
+    printer_expr fuel (emb mp) (Expr.RParen (G.rparen x)) = .ok ((), emb (mp.exprRParen x)) := by
+  simp only [cParen] at hf
+  obtain ⟨f, rfl⟩ : ∃ f, fuel = f + 1 := ⟨fuel - 1, by omega⟩
+  rw [expr_unfold]
+  have hb : (Expr_Comments (Expr.RParen (G.rparen x))).Before = x.comments.before.map G.com := rfl
+  rw [hb, before_sim M mp x.comments.before f hm (by omega)]
+  simp only [bind_ok, gBody, pure_eq_ok]
+  simp [emb, Printer.exprRParen, Printer.writeByte, Printer.queueSuffix, Expr_Comments, G.rparen, G.coms]
+
+theorem exprCommentBlock_sim (M : Nat) (mp : Printer) (x : Modfile.CommentBlock) (fuel : Nat)
+    (hm : mp.margin ≤ M) (hf : pot M mp + cParen M x.comments ≤ fuel) :
+    printer_expr fuel (emb mp) (G.expr (.commentBlock x)) = .ok ((), emb (mp.exprCommentBlock x)) := by
+  simp only [cParen] at hf
+  obtain ⟨f, rfl⟩ : ∃ f, fuel = f + 1 := ⟨fuel - 1, by omega⟩
+  rw [expr_unfold]
+  have hb : (Expr_Comments (G.expr (.commentBlock x))).Before = x.comments.before.map G.com := rfl
+  rw [hb, before_sim M mp x.comments.before f hm (by omega)]
+  simp only [bind_ok, gBody, G.expr, pure_eq_ok]
+  simp [emb, Printer.exprCommentBlock, Printer.queueSuffix, Expr_Comments, G.coms]
+
+theorem exprLine_sim (M : Nat) (mp : Printer) (x : Modfile.Line) (fuel : Nat)
+    (hm : mp.margin ≤ M) (hf : pot M mp + cLine M x ≤ fuel) :
+    printer_expr fuel (emb mp) (Expr.Line (G.line x)) = .ok ((), emb (mp.exprLine x)) := by
+  simp only [cLine] at hf
+  obtain ⟨f, rfl⟩ : ∃ f, fuel = f + 1 := ⟨fuel - 1, by omega⟩
+  rw [expr_unfold]
+  have hb : (Expr_Comments (Expr.Line (G.line x))).Before = x.comments.before.map G.com := rfl
+  have ht : (G.line x).Token = x.token := rfl
+  have hl := length_le_cToks x.token
+  rw [hb, before_sim M mp x.comments.before f hm (by omega)]
+  simp only [bind_ok, gBody, ht]
+  rw [tokens_sim _ x.token f (by omega)]
+  simp only [bind_ok, pure_eq_ok]
+  simp [emb, Printer.exprLine, Printer.queueSuffix, Expr_Comments, G.line, G.coms]
+
+/-! ### the lines of a block, and the block -/
+
+theorem lines_loop (M : Nat) (gb : Generated.Print.LineBlock) (rest : List Modfile.Line) :
+    ∀ (pre : List Modfile.Line) (fuel : Nat) (mp : Printer),
+    mp.margin ≤ M → pot M mp + cBlockLines M rest ≤ fuel →
+    ∃ r, printer_expr_loop1 ((pre ++ rest).map G.line) gb fuel (pre.length : Int) (emb mp)
+      = .ok (r, emb (mp.exprLines rest)) := by
+  induction rest with
+  | nil =>
+    intro pre fuel mp hm hf
+    obtain ⟨f, rfl⟩ : ∃ f, fuel = f + 1 := ⟨fuel - 1, by simp only [cBlockLines] at hf; omega⟩
+    rw [printer_expr_loop1]
+    have hc : decide ((pre.length : Int) < len ((pre ++ []).map G.line)) = false := by simp [len_eq]
+    simp only [hc, Bool.false_eq_true, if_false, pure_eq_ok, Printer.exprLines]
+    exact ⟨_, rfl⟩
+  | cons l rest ih =>
+    intro pre fuel mp hm hf
+    simp only [cBlockLines] at hf
+    obtain ⟨f, rfl⟩ : ∃ f, fuel = f + 1 := ⟨fuel - 1, by omega⟩
+    rw [printer_expr_loop1]
+    have hc : decide ((pre.length : Int) < len ((pre ++ l :: rest).map G.line)) = true := by simp [len_eq]; omega
+    have hi : idxL ((pre ++ l :: rest).map G.line) (pre.length : Int) = .ok (G.line l) := by
+      have := idxL_append_length (pre.map G.line) (G.line l) (rest.map G.line)
+      simpa using this
+    have h1 := newline_pot M mp hm
+    have h2 := exprLine_pot M mp.newline l (by simpa using hm)
+    simp only [hc, if_true, hi, bind_ok]
+    rw [newline_sim M mp f hm (by omega)]
+    simp only [bind_ok]
+    rw [exprLine_sim M mp.newline l f (by simpa using hm) (by omega)]
+    simp only [bind_ok]
+    have hpre : pre ++ l :: rest = (pre ++ [l]) ++ rest := by simp
+    rw [hpre, range_next pre l]
+    have := ih (pre ++ [l]) f (mp.newline.exprLine l) (by simpa using hm) (by omega)
+    simpa [Printer.exprLines] using this
+
+theorem emb_incMargin (q : Printer) :
+    ({ Buffer := (emb q).Buffer, comment := (emb q).comment, margin := (emb q).margin + 1 } : printer)
+      = emb { q with margin := q.margin + 1 } := by
+  simp [emb]
+
+theorem emb_decMargin (q : Printer) (h : 1 ≤ q.margin) :
+    ({ Buffer := (emb q).Buffer, comment := (emb q).comment, margin := (emb q).margin - 1 } : printer)
+      = emb { q with margin := q.margin - 1 } := by
+  simp [emb]; omega
+
+theorem exprLineBlock_sim (M : Nat) (mp : Printer) (x : Modfile.LineBlock) (fuel : Nat)
+    (hm : mp.margin + 1 ≤ M) (hf : pot M mp + cBlock M x ≤ fuel) :
+    printer_expr fuel (emb mp) (G.expr (.lineBlock x)) = .ok ((), emb (mp.exprLineBlock x)) := by
+  simp only [cBlock] at hf
+  obtain ⟨f, rfl⟩ : ∃ f, fuel = f + 1 := ⟨fuel - 1, by omega⟩
+  have hm0 : mp.margin ≤ M := by omega
+  -- the intermediate states of the model
+  let p1 := mp.emitBefore x.comments.before
+  let p2 := (p1.tokens x.token).writeByte 32
+  let p3 := p2.exprLParen x.lparen
+  let p4 : Printer := { p3 with margin := p3.margin + 1 }
+  let p5 := p4.exprLines x.lines
+  let p6 : Printer := { p5 with margin := p5.margin - 1 }
+  have m1 : p1.margin = mp.margin := by simp [p1]
+  have m2 : p2.margin = mp.margin := by simp [p2, m1]
+  have m3 : p3.margin = mp.margin := by simp [p3, m2]
+  have m4 : p4.margin = mp.margin + 1 := by simp [p4, m3]
+  have m5 : p5.margin = mp.margin + 1 := by simp [p5, m4]
+  have m6 : p6.margin = mp.margin := by simp [p6, m5]
+  have b1 : pot M p1 ≤ pot M mp + cBefore M x.comments.before := emitBefore_pot M mp _ hm0
+  have b2 : pot M p2 ≤ pot M p1 + cToks x.token + 1 := by
+    have := tokens_pot M p1 x.token
+    simp only [p2, pot_writeByte]; omega
+  have b3 : pot M p3 + 2 ≤ pot M p2 + cParen M x.lparen.comments := exprLParen_pot M p2 x.lparen (by omega)
+  have b4 : pot M p4 = pot M p3 := rfl
+  have b5 : pot M p5 + 1 ≤ pot M p4 + cBlockLines M x.lines := exprLines_pot M x.lines p4 (by omega)
+  have b6 : pot M p6 = pot M p5 := rfl
+  have b7 : pot M p6.newline + 2 ≤ pot M p6 + cNewline M := newline_pot M p6 (by omega)
+  have hl := length_le_cToks x.token
+  rw [expr_unfold]
+  have hb : (Expr_Comments (G.expr (.lineBlock x))).Before = x.comments.before.map G.com := rfl
+  rw [hb, before_sim M mp x.comments.before f hm0 (by omega)]
+  simp only [bind_ok, gBody, G.expr]
+  rw [tokens_sim _ x.token f (by omega)]
+  simp only [bind_ok]
+  have e2 : ({ Buffer := (emb (p1.tokens x.token)).Buffer ++ [32], comment := (emb (p1.tokens x.token)).comment,
+               margin := (emb (p1.tokens x.token)).margin } : printer) = emb p2 := by
+    simp [emb, p2, Printer.writeByte]
+  rw [e2, exprLParen_sim M p2 x.lparen f (by omega) (by omega)]
+  simp only [bind_ok]
+  rw [emb_incMargin]
+  obtain ⟨r, hr⟩ := lines_loop M
+    ⟨G.coms x.comments, G.pos x.start, G.lparen x.lparen, x.token, x.lines.map G.line, G.rparen x.rparen⟩
+    x.lines [] f p4 (by omega) (by omega)
+  simp only [List.nil_append, List.length_nil] at hr
+  have z : ((0 : Nat) : Int) = (0 : Int) := rfl
+  rw [z] at hr
+  rw [hr]
+  simp only [bind_ok]
+  rw [emb_decMargin p5 (by omega)]
+  rw [newline_sim M p6 f (by omega) (by omega)]
+  simp only [bind_ok]
+  rw [exprRParen_sim M p6.newline x.rparen f (by simp; omega) (by omega)]
+  simp only [bind_ok, pure_eq_ok]
+  simp [emb, Printer.exprLineBlock, Printer.queueSuffix, Expr_Comments, G.coms, p6, p5, p4, p3, p2, p1]
+
+theorem expr_sim (M : Nat) (mp : Printer) (x : Modfile.Expr) (fuel : Nat)
+    (hm : mp.margin + 1 ≤ M) (hf : pot M mp + cExpr M x ≤ fuel) :
+    printer_expr fuel (emb mp) (G.expr x) = .ok ((), emb (mp.expr x)) := by
+  have hm0 : mp.margin ≤ M := by omega
+  cases x with
+  | commentBlock x => exact exprCommentBlock_sim M mp x fuel hm0 hf
+  | line x => exact exprLine_sim M mp x fuel hm0 hf
+  | lineBlock x => exact exprLineBlock_sim M mp x fuel hm hf
+  | lparen x => exact exprLParen_sim M mp x fuel hm0 hf
+  | rparen x => exact exprRParen_sim M mp x fuel hm0 hf
+
 end ModVerif.TieFnPrint
